@@ -43,6 +43,7 @@ pub fn op_strategy() -> BoxedStrategy<Op> {
 		2 => any::<u16>().prop_map(|w| Op::Restart { w }),
 		3 => any::<u16>().prop_map(|w| Op::ZeroConfRelay { w }),
 		2 => any::<u16>().prop_map(|s| Op::FinalizeTampered { s }),
+		2 => any::<u8>().prop_map(|n| Op::LongWait { n }),
 	]
 	.boxed()
 }
@@ -270,6 +271,10 @@ impl C04 {
 				crate::rt::dbg(&format!("mine error: {}", e));
 			}
 			out.class(format!("op:{}:{}", r.kind, match &r.result { Some(Ok(_)) => "ok", Some(Err(_)) => "err", None => "noop" }));
+			if let Some(e) = r.err() {
+				let m = crate::rt::norm_msg(&e);
+				out.class(format!("err:{}:{}", r.kind, m.chars().take(56).collect::<String>()));
+			}
 			if r.kind == "mine" && r.ok() {
 				if sim.slates.iter().any(|s| s.mined_at == Some(sim.world.height())) {
 					mined_wallet_tx = true;
